@@ -20,8 +20,31 @@ tvars == <<l, cfg, fresh, finals, bad, calls, ctx, useOverrides, lastOk>>
 
 Bag(cs) == [p \in Parsers |-> Cardinality({i \in DOMAIN cs : cs[i] = p})]
 
-\* definitions that fresh contexts of configuration c produced for name k
-FreshFor(c, k) == { Get(fresh[x], k) : x \in {x \in DOMAIN fresh : x[1] = c /\ HasKey(fresh[x], k)} }
+\* definitions that fresh contexts of configuration c produced for name k, printing one of the parsers ps alone
+FreshFor(c, k, ps) == { Get(fresh[x], k) : x \in {x \in DOMAIN fresh : x[1] = c /\ x[2] \in ps /\ HasKey(fresh[x], k)} }
+Called(cs) == {cs[i] : i \in DOMAIN cs}
+
+\* Known deviation "generatedNameCollision": the definitions of the inline variants of a discriminated union get generated
+\* names, Discriminated<Key><Value><32-bit hash of the union>.  Two different unions can have one such name (equal 32-bit
+\* hashes; unions that differ only in a JSDoc).  In one context the second union gets the next free name (or, when only the
+\* annotations differ, shares the first one's definition): correct schemas, but WHICH name / annotation a union gets depends
+\* on the order of the calls.  Identified by: the complaint is about a generated name and fresh contexts of two of the
+\* parsers called in this history give different definitions to one generated name.
+GeneratedName(k) == Len(k) > 13 /\ SubSeq(k, 1, 13) = "Discriminated"
+CollisionWitnessed(c, ps) ==
+  \E x, y \in DOMAIN fresh :
+     /\ x[1] = c /\ y[1] = c /\ x[2] \in ps /\ y[2] \in ps
+     /\ \E k \in Keys(fresh[x]) \cap Keys(fresh[y]) : GeneratedName(k) /\ ~JsonEq(Get(fresh[x], k), Get(fresh[y], k))
+DiffKeys(a, b) == {k \in Keys(a) \cup Keys(b) : ~(HasKey(a, k) /\ HasKey(b, k) /\ JsonEq(Get(a, k), Get(b, k)))}
+\* a definition that refers to a generated name (it differs from the fresh one when that name is another one here)
+MentionsGenerated(str) == \E i \in 1..(Len(str) - 12) : SubSeq(str, i, i + 12) = "Discriminated"
+RefersToGenerated(defs, k) == HasKey(defs, k) /\ \E ref \in Refs(Get(defs, k)) : MentionsGenerated(ref)
+Affected(defs, k) == GeneratedName(k) \/ RefersToGenerated(defs, k)
+ClassOf(kind, name, defsNow, defsThen, c, ps) ==
+  IF "generatedNameCollision" \in Deviations /\ CollisionWitnessed(c, ps)
+     /\ \/ kind \in {"definition-differs-from-fresh", "no-fresh-definition"} /\ Affected(defsNow, name)
+        \/ kind = "order-dependent-definitions" /\ \A k \in DiffKeys(defsNow, defsThen) : Affected(defsNow, k) \/ Affected(defsThen, k)
+  THEN "generatedNameCollision" ELSE "NEW"
 
 CallBad(r) ==
   LET R == [defs |-> r.defs, pre |-> r.pre, suf |-> r.suf, pats |-> <<>>]
@@ -31,9 +54,10 @@ CallBad(r) ==
   IN (IF r.ok # lastOk' THEN {[kind |-> "outcome-differs-from-fresh-context", name |-> r.p]} ELSE {})
      \cup (IF r.inprog # <<>> THEN {[kind |-> "definition-left-in-progress", name |-> r.inprog[1]]} ELSE {})
      \cup (IF named # DOMAIN ctx'.col THEN {[kind |-> "collected-names-differ-from-model", name |-> r.p]} ELSE {})
-     \cup { [kind |-> "no-fresh-definition", name |-> k] : k \in {k \in Keys(r.defs) : FreshFor(cfg, k) = {}} }
+     \* (what a fresh context would produce "for that type": the fresh contexts of the parsers called in this history)
+     \cup { [kind |-> "no-fresh-definition", name |-> k] : k \in {k \in Keys(r.defs) : FreshFor(cfg, k, Called(calls')) = {}} }
      \cup { [kind |-> "definition-differs-from-fresh", name |-> k]
-            : k \in {k \in Keys(r.defs) : \E f \in FreshFor(cfg, k) : ~JsonEq(Get(r.defs, k), f)} }
+            : k \in {k \in Keys(r.defs) : \E f \in FreshFor(cfg, k, Called(calls')) : ~JsonEq(Get(r.defs, k), f)} }
      \cup { [kind |-> "ref-does-not-resolve", name |-> ref]
             : ref \in {ref \in UNION {Refs(x) : x \in all} : ~RefResolves(ref, R)} }
      \cup (IF bag \in DOMAIN finals /\ ~JsonEq(finals[bag], r.defs)
@@ -42,7 +66,7 @@ CallBad(r) ==
 Fresh ==
   /\ l <= Len(Rec) /\ Rec[l].ev = "fresh"
   /\ fresh' = (<<Rec[l].cfg, Rec[l].p>> :> Rec[l].defs) @@ fresh
-  /\ bad' = IF Rec[l].inprog # <<>> THEN {[kind |-> "definition-left-in-progress", name |-> Rec[l].inprog[1]]} ELSE {}
+  /\ bad' = IF Rec[l].inprog # <<>> THEN {[kind |-> "definition-left-in-progress", name |-> Rec[l].inprog[1], class |-> "NEW"]} ELSE {}
   /\ UNCHANGED <<cfg, finals, calls, ctx, useOverrides, lastOk>>
 
 Reset ==
@@ -56,7 +80,10 @@ Reset ==
 TraceCall ==
   /\ l <= Len(Rec) /\ Rec[l].ev = "call"
   /\ Call(Rec[l].p)                       \* the SchemaCtx action
-  /\ bad' = CallBad(Rec[l])
+  /\ bad' = LET bag == <<cfg, Bag(calls')>>
+                 then == IF bag \in DOMAIN finals THEN finals[bag] ELSE Rec[l].defs
+             IN { [kind |-> b.kind, name |-> b.name, class |-> ClassOf(b.kind, b.name, Rec[l].defs, then, cfg, Called(calls'))]
+                  : b \in CallBad(Rec[l]) }
   /\ LET bag == <<cfg, Bag(calls')>> IN
      finals' = IF bag \in DOMAIN finals THEN finals ELSE (bag :> Rec[l].defs) @@ finals
   /\ UNCHANGED <<cfg, fresh>>
@@ -71,5 +98,5 @@ Accepted ==
   /\ PrintT(<<"CONSUMED", ToJson([n |-> consumed, of |-> Len(Rec)])>>)
   /\ consumed = Len(Rec)
 
-Report == \A b \in bad : PrintT(<<"JUDGED", ToJson([line |-> l - 1, kind |-> b.kind, name |-> b.name])>>)
+Report == \A b \in bad : PrintT(<<"JUDGED", ToJson([line |-> l - 1, kind |-> b.kind, name |-> b.name, class |-> b.class])>>)
 =============================================================================
